@@ -178,7 +178,7 @@ Proof.
     destruct mb as [x|]; [|reflexivity]. sf. destruct (is_done (s_jobs s) x); [reflexivity|].
     rewrite core_pushjob. reflexivity.
   - destruct (release ser (s_jobs s) (s_conns s)). destruct (getjob (s_jobs s) ser) as [j|]; [|reflexivity].
-    destruct (j_drop j && has_waiter ser (s_conns s)); reflexivity.
+    destruct (j_drop j && has_waiter ser (s_conns s) && id_is (s_ids s) (j_id j) ser); reflexivity.
 Qed.
 
 Lemma core_run_events : forall es s, core (fst (run_events es s)) = core s.
@@ -239,7 +239,7 @@ Proof.
   - cbn [fst]. eapply ci_same; [| | |exact H]; reflexivity.
   - destruct (is_idle c s); [|exact H]. destruct (id_lookup (s_ids s) i) as [ser|]; [|exact H].
     destruct (getjob (s_jobs s) ser) as [j|]; [|exact H].
-    destruct (j_done j && negb (done_pending ser (s_hub s))); [destruct (j_drop j)|]; cbn [fst]; try exact H;
+    destruct (j_done j && negb (done_pending ser (s_hub s))); [destruct (j_drop j && id_is (s_ids s) (j_id j) ser)|]; cbn [fst]; try exact H;
       (eapply ci_same; [| | |exact H]; reflexivity).
   - exact H.
   - destruct (id_lookup (s_ids s) i) as [ser|]; [|exact H]. cbn [fst]. apply ci_setjob_same; [|exact H]. intro j. cbn. auto.
